@@ -31,6 +31,16 @@ def lean_stage(ctx, prop_mod, extra_targets=()):
     ctx.cov["trusted_base"].append("axioms actually used by the theorems of this property: %s" % (a["axioms_used"] or ["none"]))
     ctx.notes["property_theorems"] = a["property_theorems"]
     ctx.notes["lean_modules"] = a["modules"]
+    # a translator that could not translate the current source left the committed last-known-good generated file in place: the theorems of a
+    # property whose modules import that file are then no longer about the code as it is now.  That is a verdict (no failing input by itself;
+    # the property's own oracles still run and may supply one).  C14 (nodeclasses) and C17 (keywords) word their own reports.
+    GEN = {"facts": "PsycheModel.Generated.Facts", "recovery": "PsycheModel.Generated.Recovery", "syntaxkind": "PsycheModel.Generated.SyntaxKind"}
+    for name, mod in GEN.items():
+        err = (ctx.translator_errors or {}).get(name)
+        if err and mod in (a["modules"] or []):
+            ctx.report("translator:" + name, "translators/%s.py could not translate the current source (%s); the committed last-known-good %s is in use, "
+                       "so the theorems and generated obligations of this property are no longer about the code as it is now" % (name, err, mod),
+                       {"translator": "translators/%s.py" % name, "error": err, "generated_module": mod}, no_input=True)
     if a["problems"]:
         ctx.lean_failure = "; ".join(a["problems"][:5])
         ctx.log("audit problems:", ctx.lean_failure)
